@@ -22,7 +22,7 @@ import pegdump
 from props import kw_common as K
 
 CORPUS_DIR = os.path.join(core.VERIF, "corpus", "C21")
-ALPHA = ["a", "B", "1", "_", "-", " ", "é", "٣"]
+ALPHA = ["a", "B", "1", "_", "-", " ", "é", "٣", "\n"]
 KW_RE = re.compile(r"[^\d\W]\w*")
 
 
@@ -117,7 +117,7 @@ TIE_SAMPLE = None
 
 
 def tie_sample():
-    return [t for t in small_strings(2) if t.strip() == t and t] + ["ab1", "a-b", "_B_", "1ab", "éa1", "٣a", "a٣", "a b", "if", "B1-"]
+    return [t for t in small_strings(2) if t] + ["ab1", "a-b", "_B_", "1ab", "éa1", "٣a", "a٣", "a b", "if", "B1-", "end\n", "ab\n\n", "\nab", "a$", "a\r", "a\t", "a\x0b", "a\u2028"]
 
 
 def tie_exprs(chk):
@@ -333,7 +333,7 @@ def run(chk):
                 chk.stat("glued keyword: %s" % ("outcomes differ" if K.strip_sup(p["tree"]) != K.strip_sup(k["tree"]) else "outcomes equal"))
             if nrun % 60 == 7:
                 chk.sample({"grammar": case["grammar"], "opts": case["opts"], "input": text, "plain": p["tree"][:100], "autokwd": k["tree"][:100], "no_glue": no_glue})
-    chk.cov["rule"] = ("(a) all literals over {a,B,1,_,-,space,e-acute,arabic-indic digit} up to length 3: kw_like vs Python re on the translated pattern; "
+    chk.cov["rule"] = ("(a) all literals over {a,B,1,_,-,space,e-acute,arabic-indic digit,newline} up to length 3: kw_like vs Python re on the translated pattern; "
                        "kw_match vs re `<t>\\b` for 5 keyword literals x all texts up to length 4 x positions 0..4 x ignore_case off/on; compile_lit vs the terminal "
                        "the real textX builds for `Model: '<t>';` with autokwd. (b) generated textX grammars (2-6 rules; sequences, choices, repetitions with "
                        "keyword/symbol separators, predicates, assignments, base types, user regexes incl. one ending in \\b; literal pool mixing identifier-like "
